@@ -6,6 +6,7 @@ FeedVerif/Model/Mixin.lean (stage 1: version detection on the root element).
 import FeedVerif.Model.Json
 import FeedVerif.Model.Mixin
 import FeedVerif.Props.C20
+import FeedVerif.Lemmas.Mixin
 
 namespace FeedVerif.Json
 
@@ -272,11 +273,13 @@ theorem dispatch_ver (c : Core) (hn : Str) (attrsD : List (Str × Str)) (d : Cor
         simpa using h2.1.1.2
       simp only [hf, Bool.false_eq_true, ↓reduceIte]
       split at h
-      · cases h
-      · simp only at h
-        split at h
-        · injection h with h; injection h with ha _; rw [← ha]; exact ⟨rfl, rfl⟩
-        · injection h with h; injection h with ha _; rw [← ha]; exact setContext_ver _ _ _
+      · injection h with h; injection h with ha _; rw [← ha]; exact ⟨rfl, rfl⟩
+      · split at h
+        · cases h
+        · simp only at h
+          split at h
+          · injection h with h; injection h with ha _; rw [← ha]; exact ⟨rfl, rfl⟩
+          · injection h with h; injection h with ha _; rw [← ha]; exact setContext_ver _ _ _
 
 def declFold (attrs : List (Str × Str)) (v : VS) : VS :=
   attrs.foldl (fun st kv =>
@@ -324,8 +327,10 @@ theorem dispatch_isOk (c c' : Core) (hn : Str) (attrsD : List (Str × Str)) :
         · split <;> rfl
     · split
       · rfl
-      · simp only
-        split <;> rfl
+      · split
+        · rfl
+        · simp only
+          split <;> rfl
 
 def hnV (v : VS) (tag : Str) : Str := handlerName { nsMap := v.nsMap } tag
 
@@ -340,7 +345,7 @@ def vStep (loose : Bool) (v : VS) : MEv → Option VS
     if (dispatchCore { version := v1.version, nsMap := v1.nsMap } h a).isOk then some ⟨dispVer v1.version h a, v1.nsMap⟩ else none
   | .stop tag =>
     let h := hnV v tag
-    if h == S "channel" || h == S "feed" || h == S "item" || h == S "entry" || !hasEnd h then some v else none
+    if h == S "channel" || h == S "feed" || h == S "item" || h == S "entry" || (dateKey h).isSome || !hasEnd h then some v else none
   | .data _ => some v
   | .ns p u => some (trackV v p u)
 
@@ -393,9 +398,17 @@ theorem step_proj (o : Ops) (s : MSt) (e : MEv) :
     have e1 : ∀ c : Core, proj (endFinish o c) = proj c := fun _ => rfl
     have e2 : ∀ (c : Core) (b : Bool), proj { c with infeed := b } = proj c := fun _ _ => rfl
     have e3 : ∀ (c : Core) (b : Bool), proj { c with inentry := b } = proj c := fun _ _ => rfl
-    by_cases hA : (hnV (proj s.c) tag == S "channel") = true <;> by_cases hB : (hnV (proj s.c) tag == S "feed") = true <;>
-      by_cases hC : (hnV (proj s.c) tag == S "item") = true <;> by_cases hD : (hnV (proj s.c) tag == S "entry") = true <;>
-      by_cases hE : hasEnd (hnV (proj s.c) tag) = true <;> simp [hA, hB, hC, hD, hE, e1, e2, e3, pop_proj]
+    have e4 : ∀ (c : Core) (k : Str) (v : V), proj (setContext c k v) = proj c := by
+      intro c k v; have := setContext_ver c k v; simp only [proj, this.1, this.2]
+    cases hdk : dateKey (hnV (proj s.c) tag) with
+    | some kp =>
+      by_cases hA : (hnV (proj s.c) tag == S "channel") = true <;> by_cases hB : (hnV (proj s.c) tag == S "feed") = true <;>
+        by_cases hC : (hnV (proj s.c) tag == S "item") = true <;> by_cases hD : (hnV (proj s.c) tag == S "entry") = true <;>
+        simp [hA, hB, hC, hD, e1, e2, e3, e4, pop_proj]
+    | none =>
+      by_cases hA : (hnV (proj s.c) tag == S "channel") = true <;> by_cases hB : (hnV (proj s.c) tag == S "feed") = true <;>
+        by_cases hC : (hnV (proj s.c) tag == S "item") = true <;> by_cases hD : (hnV (proj s.c) tag == S "entry") = true <;>
+        by_cases hE : hasEnd (hnV (proj s.c) tag) = true <;> simp [hA, hB, hC, hD, hE, e1, e2, e3, pop_proj]
   | data t =>
     simp only [mstep, vStep]
     unfold handleData
@@ -475,5 +488,148 @@ theorem version_atom03 (o : Ops) :
 theorem version_rss10 (o : Ops) :
     verOf (mrun o {} evRss10Strict) = some (S "rss10") ∧ verOf (mrun o {} evRss10Loose) = some (S "rss10") := by
   simp only [verOf_vVer, vv_rss10s, vv_rss10l, and_self]
+
+end FeedVerif.Mixin
+
+/-! ### date elements of the XML formats (M-mixin stage 1.5: handlers recognised from their source) -/
+
+namespace FeedVerif.Mixin
+
+theorem date_keys_not_uri : Gen.Mixin.dateElementsL.all (fun e => !canBeRelativeUri.contains e.2.1) = true := by decide +kernel
+
+theorem dateKey_not_uri (h : Str) (k pk : Str) (hk : dateKey h = some (k, pk)) : canBeRelativeUri.contains k = false := by
+  unfold dateKey at hk
+  cases hf : Gen.Mixin.dateElementsL.find? (·.1 == h) with
+  | none => rw [hf] at hk; cases hk
+  | some e =>
+    rw [hf] at hk
+    have hm := List.mem_of_find?_eq_some hf
+    have hall := List.all_eq_true.mp date_keys_not_uri e hm
+    simp only [Option.map_some, Option.some.injEq] at hk
+    rw [hk] at hall
+    simpa using hall
+
+theorem dateKey_not_structural (h : Str) (kp : Str × Str) (hk : dateKey h = some kp) :
+    (h == S "rss") = false ∧ (h == S "channel") = false ∧ (h == S "feed") = false ∧ (h == S "item") = false ∧ (h == S "entry") = false := by
+  obtain ⟨a, b, c, d, e⟩ := dateKey_structural
+  refine ⟨?_, ?_, ?_, ?_, ?_⟩ <;>
+  · cases hb : (h == _) with
+    | false => rfl
+    | true => have := beq_iff_eq.mp hb; subst this; simp_all
+
+theorem dget_dset_same (d : D) (k : Str) (v : V) : dget (dset d k v) k = some v := by
+  unfold dget dset
+  by_cases hany : d.any (·.1 == k) = true
+  · simp only [hany, ↓reduceIte]
+    induction d with
+    | nil => simp at hany
+    | cons p rest ih =>
+      simp only [List.map_cons, List.find?_cons]
+      by_cases hp : (p.1 == k) = true
+      · simp [hp]
+      · have hp' : (p.1 == k) = false := by simpa using hp
+        simp only [hp', Bool.false_eq_true, ↓reduceIte]
+        have hr : rest.any (·.1 == k) = true := by simpa [hp'] using hany
+        exact ih hr
+  · simp only [hany, Bool.false_eq_true, ↓reduceIte, List.find?_append]
+    have : d.find? (·.1 == k) = none := by
+      rw [List.find?_eq_none]; intro q hq
+      simp only [List.any_eq_true, not_exists, not_and] at hany
+      exact hany q hq
+    simp [this]
+
+theorem date_keys_plain : Gen.Mixin.dateElementsL.all (fun e => !(e.2.1 == S "category" || e.2.1 == S "tags" || e.2.1 == S "itunes_keywords")) = true := by decide +kernel
+
+theorem dateKey_plain (h : Str) (k pk : Str) (hk : dateKey h = some (k, pk)) :
+    (k == S "category" || k == S "tags" || k == S "itunes_keywords") = false := by
+  unfold dateKey at hk
+  cases hf : Gen.Mixin.dateElementsL.find? (·.1 == h) with
+  | none => rw [hf] at hk; cases hk
+  | some e =>
+    rw [hf] at hk
+    have hm := List.mem_of_find?_eq_some hf
+    have hall := List.all_eq_true.mp date_keys_plain e hm
+    simp only [Option.map_some, Option.some.injEq] at hk
+    rw [hk] at hall
+    simpa using hall
+
+/-- start tag of a simple date element without attributes: push `K`, nothing else that matters changes -/
+theorem date_start (o : Ops) (s : MSt) (tag k pk : Str) (hk : dateKey (handlerName s.c tag) = some (k, pk)) :
+    ∃ c1, mstep o s (.start tag []) = .ok ⟨c1, ⟨k, true, []⟩ :: s.stack⟩ ∧ c1.entries = s.c.entries ∧ c1.inentry = s.c.inentry ∧ c1.nsMap = s.c.nsMap := by
+  have hpre : (startPre o s.c tag []).1.entries = s.c.entries ∧ (startPre o s.c tag []).1.inentry = s.c.inentry ∧
+      (startPre o s.c tag []).1.nsMap = s.c.nsMap ∧ (startPre o s.c tag []).2 = [] := by
+    unfold startPre
+    simp only [List.map_nil, List.foldl_nil, dictOf]
+    split
+    · split <;> simp
+    · simp
+  have hh : handlerName (startPre o s.c tag []).1 tag = handlerName s.c tag := by
+    unfold handlerName; rw [hpre.2.2.1]
+  obtain ⟨n1, n2, n3, n4, n5⟩ := dateKey_not_structural _ _ hk
+  refine ⟨(startPre o s.c tag []).1, ?_, hpre.1, hpre.2.1, hpre.2.2.1⟩
+  simp only [mstep, startTag, hh, hpre.2.2.2]
+  unfold dispatchCore
+  simp only [n1, n2, n3, n4, n5, Bool.false_eq_true, ↓reduceIte, Bool.or_self, hk, Option.isSome_some, Option.map_some, applyDispatch]
+
+
+/-- `_parse_date(value)` as the end handler calls it: None for an empty string -/
+def parsedOf (o : Ops) (v : Str) : Option (List Int) := if v.isEmpty then none else o.parseDate v
+
+/-- end tag of a simple date element in an entry whose element is on top of the stack: `K_parsed` of
+the current entry is what `_parse_date` answers for the (stripped, repaired) joined text -/
+theorem date_stop (o : Ops) (s : MSt) (tag k pk : Str) (ps : List Str) (rest : List Elem) (e0 : Entry) (es : List Entry)
+    (hk : dateKey (handlerName s.c tag) = some (k, pk)) (hst : s.stack = ⟨k, true, ps⟩ :: rest)
+    (hin : s.c.inentry = true) (hen : s.c.entries = e0 :: es) :
+    ∃ s', mstep o s (.stop tag) = .ok s' ∧ s'.stack = rest ∧ s'.c.inentry = true ∧
+      ∃ e', s'.c.entries = e' :: es ∧ dget e'.d (canonKey pk) = some (.t (parsedOf o (o.fix (stripS ps.flatten)))) := by
+  obtain ⟨n1, n2, n3, n4, n5⟩ := dateKey_not_structural _ _ hk
+  have hu := dateKey_not_uri _ _ _ hk
+  have hp := dateKey_plain _ _ _ hk
+  have hv : popValue o s k = some (o.fix (stripS ps.flatten)) := by
+    have hu' : k ∉ canBeRelativeUri := by simpa using hu
+    unfold popValue; simp [hst, hu']
+  have hpop : pop o s k = ⟨{ s.c with entries := writeEntry k (o.fix (stripS ps.flatten)) s.c.depth e0 :: es }, rest⟩ := by
+    unfold pop
+    simp only [hst, bne_self_eq_false, Bool.false_eq_true, ↓reduceIte, Bool.not_true, hu, Bool.false_and, hp, hin, hen, updHead]
+  refine ⟨⟨endFinish o (setContext (pop o s k).c pk (.t (parsedOf o (o.fix (stripS ps.flatten))))), (pop o s k).stack⟩, ?_, ?_, ?_, ?_⟩
+  · simp only [mstep, endTag, n2, n3, n4, n5, Bool.or_self, Bool.false_eq_true, ↓reduceIte, hk, hv, parsedOf]
+  · simp only [hpop]
+  · simp only [hpop, endFinish, setContext, hin, ↓reduceIte]
+  · refine ⟨{ (writeEntry k (o.fix (stripS ps.flatten)) s.c.depth e0) with d := fset (writeEntry k (o.fix (stripS ps.flatten)) s.c.depth e0).d pk (.t (parsedOf o (o.fix (stripS ps.flatten)))) }, ?_, ?_⟩
+    · simp only [hpop, endFinish, setContext, hin, ↓reduceIte, updHead]
+    · simp only [fset]; exact dget_dset_same _ _ _
+
+
+/-- **A date element of an entry is stored as what `_parse_date` makes of its text** — for every element
+the translator recognised from the handlers' SOURCE as a simple date element (`pubDate`, `published`,
+`issued`, `updated`, `modified`, `lastBuildDate`, `created`, `expirationDate`, `dc:date`,
+`dcterms:created / issued / modified`, under whatever prefix the document binds), for every text (however
+the tokenizer chunks it: C10), either back end: after `<X>text</X>` inside an entry the entry's
+`K_parsed` is `_parse_date(repair(strip(text)))`, None for an empty string.  With C09's theorems about
+`_parse_date` on the renderings of an instant this is the XML half of "every instant comes back as the
+correct UTC tuple". -/
+theorem date_element_parsed (o : Ops) (s : MSt) (tag k pk t : Str) (e0 : Entry) (es : List Entry)
+    (hk : dateKey (handlerName s.c tag) = some (k, pk)) (hin : s.c.inentry = true) (hen : s.c.entries = e0 :: es) :
+    ∃ s' e', mrun o s [.start tag [], .data t, .stop tag] = .ok s' ∧ s'.stack = s.stack ∧ s'.c.entries = e' :: es ∧
+      dget e'.d (canonKey pk) = some (.t (parsedOf o (o.fix (stripS t)))) := by
+  obtain ⟨c1, h1, he1, hi1, hn1⟩ := date_start o s tag k pk hk
+  have hk1 : dateKey (handlerName c1 tag) = some (k, pk) := by
+    have : handlerName c1 tag = handlerName s.c tag := by unfold handlerName; rw [hn1]
+    rw [this]; exact hk
+  have h2 : mstep o ⟨c1, ⟨k, true, []⟩ :: s.stack⟩ (.data t) = .ok ⟨c1, ⟨k, true, [t]⟩ :: s.stack⟩ := by
+    simp [mstep, handleData]
+  obtain ⟨s3, h3, hs3, _, e', he', hd'⟩ := date_stop o ⟨c1, ⟨k, true, [t]⟩ :: s.stack⟩ tag k pk [t] s.stack e0 es hk1 rfl
+    (by simpa using hi1.trans hin) (by simpa using he1.trans hen)
+  refine ⟨s3, e', ?_, hs3, he', ?_⟩
+  · simp only [mrun, h1, h2, h3]
+  · simpa using hd'
+
+/-- non-vacuity: `<pubDate>` in an RSS item with a stub `_parse_date` -/
+example :
+    (match mrun { looseOps with parseDate := fun _ => some [2004, 1, 1, 19, 48, 21, 3, 1, 0] }
+        { c := { entries := [{}], inentry := true, infeed := true } } [.start (S "pubdate") [], .data (S " Thu, 01 Jan 2004 19:48:21 GMT "), .stop (S "pubdate")] with
+      | .ok s' => (s'.c.entries.head?.bind fun e => dget e.d (S "published_parsed")) == some (.t (some [2004, 1, 1, 19, 48, 21, 3, 1, 0])) &&
+                  (s'.c.entries.head?.bind fun e => dget e.d (S "published")) == some (.s (S "Thu, 01 Jan 2004 19:48:21 GMT"))
+      | .unmodelled _ => false) = true := by decide +kernel
 
 end FeedVerif.Mixin
